@@ -1620,17 +1620,17 @@ def _gen_spec(seed: int, mode: str | None = None) -> dict:
     if mode == "history":
         handles = {}
         k = rng.random()
-        if k < 0.08:
+        if k < 0.06:
             ops = gen_builder_history(rng, handles)
-        elif k < 0.2:
+        elif k < 0.15:
             ops = gen_service_history(rng, handles)
-        elif k < 0.33:
+        elif k < 0.27:
             ops = gen_firstuse_history(rng, handles)
-        elif k < 0.43:
+        elif k < 0.37:
             ops = gen_paths_history(rng, handles)
-        elif k < 0.48:
+        elif k < 0.41:
             ops = gen_config_history(rng, handles)
-        elif k < 0.6:
+        elif k < 0.72:
             ops = gen_pair_history(rng, handles)
         else:
             focus = rng.choice(FAMILIES) if rng.random() < 0.4 else None
